@@ -1,360 +1,110 @@
 package main
 
-// Micro-translator (DESIGN §3.3): re-derives a Lean definition from the *body* of
-// RateLimiter.acquirePermission on every run. The subset handled is straight-line
-// integer code: := / = / op= assignments to locals and receiver fields, `if` with
-// or without else (bodies that either always return or never return), `return`,
-// `var x T`, integer / comparison / boolean expressions, conversions, and a small
-// table of time.Time / time.Duration method calls expressed relative to
-// rl.startTime. Statements that only concern the mutex, rl.state bookkeeping or the
-// listener are skipped (they are listed in the generated file). Anything else makes
-// the extraction fail, which breaks the dependent theorem `acquireIR_eq_model`.
+// Regenerated tie by translation for C09 (DESIGN §3.3): the body of
+// RateLimiter.acquirePermission → Gen.FactsC09IR.acquireIR, through the generic
+// micro-translator in irlib.go. Time is expressed relative to rl.startTime; statements that
+// only concern the mutex, rl.state bookkeeping or the listener are ignored (and listed in the
+// generated file). `acquire_regenerated_from_source` (Props/C09.lean) proves
+// acquireIR = Model.RateLimiter.acquire for all inputs.
 
 import (
-	"fmt"
 	"go/ast"
-	"go/token"
-	"sort"
 	"strings"
 )
 
-type irCtx struct {
-	r       *Repo
-	skipped []string
-	fields  map[string]string // printed Go selector -> Lean name (read)
-	state   map[string]string // printed Go selector (assignable receiver field) -> Lean variable
-}
-
-func (c *irCtx) expr(e ast.Expr) (string, error) {
-	switch x := e.(type) {
-	case *ast.BasicLit:
-		if x.Kind == token.INT {
-			return x.Value, nil
-		}
-	case *ast.Ident:
-		switch x.Name {
-		case "true", "false":
-			return x.Name, nil
-		}
-		return x.Name, nil
-	case *ast.ParenExpr:
-		s, err := c.expr(x.X)
-		return "(" + s + ")", err
-	case *ast.SelectorExpr:
-		src := c.r.Src(x)
-		if v, ok := c.state[src]; ok {
-			return v, nil
-		}
-		if v, ok := c.fields[src]; ok {
-			return v, nil
-		}
-		return "", fmt.Errorf("unknown selector %s", src)
-	case *ast.UnaryExpr:
-		s, err := c.expr(x.X)
-		if err != nil {
-			return "", err
-		}
-		switch x.Op {
-		case token.SUB:
-			return "(-" + s + ")", nil
-		case token.NOT:
-			return "(!" + s + ")", nil
-		}
-	case *ast.BinaryExpr:
-		// rl.state comparisons become the `disabled` parameter
-		if src := c.r.Src(x); src == "rl.state == StateDisabled" {
-			return "disabled", nil
-		}
-		a, err := c.expr(x.X)
-		if err != nil {
-			return "", err
-		}
-		b, err := c.expr(x.Y)
-		if err != nil {
-			return "", err
-		}
-		switch x.Op {
-		case token.ADD, token.SUB, token.MUL:
-			return fmt.Sprintf("(%s %s %s)", a, x.Op.String(), b), nil
-		case token.QUO:
-			return fmt.Sprintf("(Int.tdiv %s %s)", a, b), nil
-		case token.REM:
-			return fmt.Sprintf("(Int.tmod %s %s)", a, b), nil
-		case token.LSS, token.GTR, token.LEQ, token.GEQ:
-			op := map[token.Token]string{token.LSS: "<", token.GTR: ">", token.LEQ: "≤", token.GEQ: "≥"}[x.Op]
-			return fmt.Sprintf("decide (%s %s %s)", a, op, b), nil
-		case token.EQL:
-			return fmt.Sprintf("(%s == %s)", a, b), nil
-		case token.NEQ:
-			return fmt.Sprintf("(%s != %s)", a, b), nil
-		case token.LAND:
-			return fmt.Sprintf("(%s && %s)", a, b), nil
-		case token.LOR:
-			return fmt.Sprintf("(%s || %s)", a, b), nil
-		}
-	case *ast.CallExpr:
-		fun := c.r.Src(x.Fun)
-		switch {
-		case (fun == "int" || fun == "int64" || fun == "time.Duration") && len(x.Args) == 1:
-			return c.expr(x.Args[0]) // integer conversions (no overflow: recorded assumption)
-		case fun == "nowFunc" && len(x.Args) == 0:
-			return "now", nil // absolute time; only used through the two patterns below
-		case fun == "now.Sub" && len(x.Args) == 1 && c.r.Src(x.Args[0]) == "rl.startTime":
-			return "now", nil // time since start
-		case strings.HasSuffix(fun, ".Sub") && len(x.Args) == 1 && c.r.Src(x.Args[0]) == "now":
-			// rl.startTime.Add(d).Sub(now)  ==  d - (now since start)
-			if se, ok := x.Fun.(*ast.SelectorExpr); ok {
-				if inner, ok := se.X.(*ast.CallExpr); ok && c.r.Src(inner.Fun) == "rl.startTime.Add" && len(inner.Args) == 1 {
-					d, err := c.expr(inner.Args[0])
-					return "(" + d + " - now)", err
-				}
-			}
-		}
-		return "", fmt.Errorf("unsupported call %s", c.r.Src(x))
-	}
-	return "", fmt.Errorf("unsupported expression %s", c.r.Src(e))
-}
-
-func (c *irCtx) ignorable(s ast.Stmt) bool {
-	src := c.r.Src(s)
-	switch x := s.(type) {
-	case *ast.ExprStmt:
-		return strings.HasPrefix(src, "rl.lock.") || strings.HasPrefix(src, "rl.notifyListener(")
-	case *ast.DeferStmt:
-		return strings.HasPrefix(src, "defer rl.lock.")
-	case *ast.AssignStmt:
-		return len(x.Lhs) == 1 && c.r.Src(x.Lhs[0]) == "rl.state"
-	case *ast.IfStmt:
-		if x.Else != nil || x.Init != nil || !strings.Contains(c.r.Src(x.Cond), "rl.state") {
-			return false
-		}
-		for _, b := range x.Body.List {
-			if !c.ignorable(b) {
+func c09IgnoreStmt(t **irT) func(string, ast.Stmt) bool {
+	var ign func(src string, s ast.Stmt) bool
+	ign = func(src string, s ast.Stmt) bool {
+		switch x := s.(type) {
+		case *ast.ExprStmt:
+			return strings.HasPrefix(src, "rl.lock.") || strings.HasPrefix(src, "rl.notifyListener(")
+		case *ast.DeferStmt:
+			return strings.HasPrefix(src, "defer rl.lock.")
+		case *ast.AssignStmt:
+			return len(x.Lhs) == 1 && strings.HasPrefix(src, "rl.state =")
+		case *ast.IfStmt:
+			// `if rl.state != X { rl.state = X; rl.notifyListener(…) }`
+			if x.Else != nil || x.Init != nil || !strings.HasPrefix(src, "if rl.state != ") {
 				return false
 			}
+			for _, b := range x.Body.List {
+				if !ign((*t).r.Src(b), b) {
+					return false
+				}
+			}
+			return true
 		}
-		return true
-	}
-	return false
-}
-
-func alwaysReturns(b []ast.Stmt) bool {
-	if len(b) == 0 {
 		return false
 	}
-	_, ok := b[len(b)-1].(*ast.ReturnStmt)
-	return ok
-}
-
-func (c *irCtx) lhsVar(e ast.Expr) (string, error) {
-	if id, ok := e.(*ast.Ident); ok {
-		return id.Name, nil
-	}
-	if v, ok := c.state[c.r.Src(e)]; ok {
-		return v, nil
-	}
-	return "", fmt.Errorf("unsupported assignment target %s", c.r.Src(e))
-}
-
-func (c *irCtx) assigned(b []ast.Stmt, set map[string]bool) error {
-	for _, s := range b {
-		if c.ignorable(s) {
-			continue
-		}
-		switch x := s.(type) {
-		case *ast.AssignStmt:
-			for _, l := range x.Lhs {
-				v, err := c.lhsVar(l)
-				if err != nil {
-					return err
-				}
-				set[v] = true
-			}
-		case *ast.IfStmt:
-			if err := c.assigned(x.Body.List, set); err != nil {
-				return err
-			}
-			if x.Else != nil {
-				if eb, ok := x.Else.(*ast.BlockStmt); ok {
-					if err := c.assigned(eb.List, set); err != nil {
-						return err
-					}
-				} else {
-					return fmt.Errorf("else-if not supported")
-				}
-			}
-		case *ast.DeclStmt, *ast.ReturnStmt:
-		default:
-			return fmt.Errorf("unsupported statement %s", c.r.Src(s))
-		}
-	}
-	return nil
-}
-
-// block translates a statement list followed by the continuation `k` (a Lean term
-// produced lazily, "" when the block must end in a return).
-func (c *irCtx) block(b []ast.Stmt, ind string, k func(ind string) (string, error)) (string, error) {
-	if len(b) == 0 {
-		if k == nil {
-			return "", fmt.Errorf("block falls off the end without return")
-		}
-		return k(ind)
-	}
-	s, rest := b[0], b[1:]
-	next := func(ind string) (string, error) { return c.block(rest, ind, k) }
-	if c.ignorable(s) {
-		c.skipped = append(c.skipped, c.r.Src(s))
-		return next(ind)
-	}
-	switch x := s.(type) {
-	case *ast.DeclStmt:
-		gd, ok := x.Decl.(*ast.GenDecl)
-		if !ok || gd.Tok != token.VAR {
-			return "", fmt.Errorf("unsupported decl %s", c.r.Src(s))
-		}
-		out := ""
-		for _, sp := range gd.Specs {
-			vs := sp.(*ast.ValueSpec)
-			for i, n := range vs.Names {
-				val := "0"
-				if i < len(vs.Values) {
-					v, err := c.expr(vs.Values[i])
-					if err != nil {
-						return "", err
-					}
-					val = v
-				}
-				out += fmt.Sprintf("%slet %s : Int := %s\n", ind, n.Name, val)
-			}
-		}
-		r, err := next(ind)
-		return out + r, err
-	case *ast.AssignStmt:
-		if len(x.Lhs) != 1 || len(x.Rhs) != 1 {
-			return "", fmt.Errorf("unsupported multi-assignment %s", c.r.Src(s))
-		}
-		v, err := c.lhsVar(x.Lhs[0])
-		if err != nil {
-			return "", err
-		}
-		rhs, err := c.expr(x.Rhs[0])
-		if err != nil {
-			return "", err
-		}
-		switch x.Tok {
-		case token.DEFINE, token.ASSIGN:
-		case token.ADD_ASSIGN:
-			rhs = fmt.Sprintf("(%s + %s)", v, rhs)
-		case token.SUB_ASSIGN:
-			rhs = fmt.Sprintf("(%s - %s)", v, rhs)
-		case token.MUL_ASSIGN:
-			rhs = fmt.Sprintf("(%s * %s)", v, rhs)
-		default:
-			return "", fmt.Errorf("unsupported assignment op in %s", c.r.Src(s))
-		}
-		r, err := next(ind)
-		return fmt.Sprintf("%slet %s : Int := %s\n", ind, v, rhs) + r, err
-	case *ast.ReturnStmt:
-		if len(x.Results) != 2 {
-			return "", fmt.Errorf("unsupported return %s", c.r.Src(s))
-		}
-		ok, err := c.expr(x.Results[0])
-		if err != nil {
-			return "", err
-		}
-		d, err := c.expr(x.Results[1])
-		if err != nil {
-			return "", err
-		}
-		return fmt.Sprintf("%s((⟨rl_cycle, rl_tokens⟩ : RL), (⟨%s, %s⟩ : Out))\n", ind, ok, d), nil
-	case *ast.IfStmt:
-		if x.Init != nil {
-			return "", fmt.Errorf("if with init not supported")
-		}
-		cond, err := c.expr(x.Cond)
-		if err != nil {
-			return "", err
-		}
-		var elseB []ast.Stmt
-		if x.Else != nil {
-			eb, ok := x.Else.(*ast.BlockStmt)
-			if !ok {
-				return "", fmt.Errorf("else-if not supported")
-			}
-			elseB = eb.List
-		}
-		if alwaysReturns(x.Body.List) {
-			th, err := c.block(x.Body.List, ind+"  ", nil)
-			if err != nil {
-				return "", err
-			}
-			el, err := c.block(elseB, ind+"  ", next)
-			if err != nil {
-				return "", err
-			}
-			return fmt.Sprintf("%sif %s then\n%s%selse\n%s", ind, cond, th, ind, el), nil
-		}
-		// neither branch returns: merge the assigned variables
-		set := map[string]bool{}
-		if err := c.assigned(x.Body.List, set); err != nil {
-			return "", err
-		}
-		if err := c.assigned(elseB, set); err != nil {
-			return "", err
-		}
-		var vs []string
-		for v := range set {
-			vs = append(vs, v)
-		}
-		sort.Strings(vs)
-		if len(vs) != 1 {
-			return "", fmt.Errorf("if merging %d variables not supported: %s", len(vs), c.r.Src(x.Cond))
-		}
-		tuple := vs[0]
-		fin := func(ind string) (string, error) { return ind + tuple + "\n", nil }
-		th, err := c.block(x.Body.List, ind+"    ", fin)
-		if err != nil {
-			return "", err
-		}
-		el, err := c.block(elseB, ind+"    ", fin)
-		if err != nil {
-			return "", err
-		}
-		r, err := next(ind)
-		return fmt.Sprintf("%slet %s : Int :=\n%s  if %s then\n%s%s  else\n%s", ind, tuple, ind, cond, th, ind, el) + r, err
-	}
-	return "", fmt.Errorf("unsupported statement %s", c.r.Src(s))
+	return ign
 }
 
 func init() {
 	register(Extractor{Module: "FactsC09IR", Imports: []string{"EgVerif.Model.RateLimiter"}, Run: func(r *Repo, w *Lean) error {
-		fd, err := r.Func("pkg/util/ratelimiter/ratelimiter.go", "RateLimiter", "acquirePermission")
-		if err != nil {
-			return err
+		var tt *irT
+		spec := &irSpec{
+			Name:    "acquireIR",
+			Binders: "(p : Policy) (s : RL) (now count : Int) (disabled : Bool)",
+			BNames:  []string{"p", "s", "now", "count", "disabled"},
+			RetTy:   "RL × Out",
+			Recv:    irTerm{"s", "RL"},
+			Params:  []irTerm{{"count", "Int"}},
+			State:   []irLet{{"rl_cycle", "Int", "s.cycle"}, {"rl_tokens", "Int", "s.tokens"}},
+			LeanTy:  map[string]string{"Time": "Int"},
+			Fields: map[string]irField{
+				"RL.policy":                 {Fmt: "p", Ty: "Policy"},
+				"RL.tokens":                 {Fmt: "rl_tokens", Ty: "Int", State: true},
+				"RL.cycle":                  {Fmt: "rl_cycle", Ty: "Int", State: true},
+				"RL.startTime":              {Fmt: "startTime", Ty: "Time0"},
+				"Policy.LimitForPeriod":     {Fmt: "%s.L", Ty: "Int"},
+				"Policy.LimitRefreshPeriod": {Fmt: "%s.P", Ty: "Int"},
+				"Policy.TimeoutDuration":    {Fmt: "%s.T", Ty: "Int"},
+			},
+			Funcs: map[string]irCall{"nowFunc": {Fmt: "now", Ty: "Time", NArgs: 0}},
+			Ret: func(v []irTerm) (string, error) {
+				if len(v) != 2 || v[0].Ty != "Bool" || !irIsNum(v[1].Ty) {
+					return "", errUnsupportedReturn
+				}
+				return "((⟨rl_cycle, rl_tokens⟩ : RL), (⟨" + v[0].S + ", " + v[1].S + "⟩ : Out))", nil
+			},
 		}
-		if len(fd.Type.Params.List) != 1 || len(fd.Type.Params.List[0].Names) != 1 || fd.Type.Params.List[0].Names[0].Name != "count" {
-			return fmt.Errorf("acquirePermission: unexpected parameters")
+		spec.Hook = func(t *irT, e ast.Expr, env *irEnv) (irTerm, bool, error) {
+			tt = t
+			switch x := e.(type) {
+			case *ast.BinaryExpr:
+				if t.r.Src(x) == "rl.state == StateDisabled" {
+					return irTerm{"disabled", "Bool"}, true, nil
+				}
+			case *ast.CallExpr:
+				// time arithmetic relative to rl.startTime:
+				//   now.Sub(rl.startTime) = now ;  rl.startTime.Add(d).Sub(now) = d - now
+				se, ok := x.Fun.(*ast.SelectorExpr)
+				if !ok || se.Sel.Name != "Sub" || len(x.Args) != 1 {
+					return irTerm{}, false, nil
+				}
+				a, err := t.expr(x.Args[0], env)
+				if err != nil {
+					return irTerm{}, true, err
+				}
+				if inner, ok := se.X.(*ast.CallExpr); ok && a.Ty == "Time" {
+					if ise, ok := inner.Fun.(*ast.SelectorExpr); ok && ise.Sel.Name == "Add" && len(inner.Args) == 1 {
+						if st, err := t.expr(ise.X, env); err == nil && st.Ty == "Time0" {
+							d, err := t.expr(inner.Args[0], env)
+							return irTerm{"(" + d.S + " - " + a.S + ")", "Int"}, true, err
+						}
+					}
+				}
+				if rx, err := t.expr(se.X, env); err == nil && rx.Ty == "Time" && a.Ty == "Time0" {
+					return irTerm{rx.S, "Int"}, true, nil
+				}
+			}
+			return irTerm{}, false, nil
 		}
-		c := &irCtx{r: r,
-			fields: map[string]string{"rl.policy.LimitForPeriod": "p.L", "rl.policy.LimitRefreshPeriod": "p.P", "rl.policy.TimeoutDuration": "p.T"},
-			state:  map[string]string{"rl.tokens": "rl_tokens", "rl.cycle": "rl_cycle"}}
-		body, err := c.block(fd.Body.List, "  ", nil)
-		if err != nil {
-			return err
-		}
-		w.Line("/-! Translated from the body of `RateLimiter.acquirePermission` (go/ast → Lean).")
-		w.Line("Time is relative to `rl.startTime`; `disabled` stands for `rl.state == StateDisabled`.")
-		w.Line("Skipped statements (mutex, state bookkeeping, listener):")
-		for _, s := range c.skipped {
-			w.Line("  * `%s`", strings.ReplaceAll(s, "-/", "- /"))
-		}
-		w.Line("-/")
+		tt = &irT{r: r}
+		spec.Ignore = c09IgnoreStmt(&tt)
 		w.Line("open EgVerif.RateLimiter")
 		w.Line("")
-		w.Line("def acquireIR (p : Policy) (s : RL) (now count : Int) (disabled : Bool) : RL × Out :=")
-		w.Line("  let rl_cycle : Int := s.cycle")
-		w.Line("  let rl_tokens : Int := s.tokens")
-		w.sb.WriteString(body)
-		return nil
+		return irEmit(r, w, "pkg/util/ratelimiter/ratelimiter.go", "RateLimiter", "acquirePermission", spec,
+			"Time is relative to `rl.startTime`; `disabled` stands for `rl.state == StateDisabled`.")
 	}})
 }
